@@ -204,6 +204,12 @@ def replicateList {α} (n : Int) (xs : List α) : List α :=
 
 def replicateStr (n : Int) (s : String) : String := String.ofList (replicateList n s.toList)
 
+/-- Sequence repetition is inside the model's domain up to 200 000 result items; beyond that the
+model answers `oom` (never compared with the implementation, which may raise MemoryError or spend
+gigabytes there). -/
+def repGuard (n : Int) (len : Nat) (mk : Unit → Val) : Except Err Val :=
+  if n.toNat * len > 200000 then .error .oom else .ok (mk ())
+
 def isUndef : Val → Bool
   | .undef _ => true
   | _ => false
@@ -247,14 +253,14 @@ def pyBin (op : BinOp) (a b : Val) : Except Err Val :=
     | some i, some j => .ok (.int (i * j))
     | _, _ =>
       match a, intOf b, intOf a, b with
-      | .str s, some n, _, _ => .ok (.str (replicateStr n s))
-      | .markup s, some n, _, _ => .ok (.markup (replicateStr n s))
-      | .list xs, some n, _, _ => .ok (.list (replicateList n xs))
-      | .tuple xs, some n, _, _ => .ok (.tuple (replicateList n xs))
-      | _, _, some n, .str s => .ok (.str (replicateStr n s))
-      | _, _, some n, .markup s => .ok (.markup (replicateStr n s))
-      | _, _, some n, .list xs => .ok (.list (replicateList n xs))
-      | _, _, some n, .tuple xs => .ok (.tuple (replicateList n xs))
+      | .str s, some n, _, _ => repGuard n s.length (fun _ => .str (replicateStr n s))
+      | .markup s, some n, _, _ => repGuard n s.length (fun _ => .markup (replicateStr n s))
+      | .list xs, some n, _, _ => repGuard n xs.length (fun _ => .list (replicateList n xs))
+      | .tuple xs, some n, _, _ => repGuard n xs.length (fun _ => .tuple (replicateList n xs))
+      | _, _, some n, .str s => repGuard n s.length (fun _ => .str (replicateStr n s))
+      | _, _, some n, .markup s => repGuard n s.length (fun _ => .markup (replicateStr n s))
+      | _, _, some n, .list xs => repGuard n xs.length (fun _ => .list (replicateList n xs))
+      | _, _, some n, .tuple xs => repGuard n xs.length (fun _ => .tuple (replicateList n xs))
       | .obj _, _, _, _ => .error .oom
       | _, _, _, .obj _ => .error .oom
       | _, _, _, _ => .error .typeError
